@@ -92,15 +92,16 @@ def case_product(I, slf, result, pt, max_cases=81):
     return out
 
 
-def refines_obligations(I, res, emit, slf, r, pt, props=("C08",), split=True, clause="refines"):
+IMPORTERS = ("C08", "C05", "C06", "C07", "C09")     # properties that rest on Refines of simplification
+
+
+def refines_obligations(I, res, emit, slf, r, pt, props=IMPORTERS, split=True, clause="refines"):
     ds = spec.den(I, slf, pt)
     dr = spec.den(I, r, pt)
     goal = z3.Implies(ds.D, z3.And(dr.D, dr.V == ds.V))
-    emit("result-mentions-no-new-variable", list(props) + ["C05"], sym.subset(spec.vars_of(I, r), spec.vars_of(I, slf)))
-    cases = case_product(I, slf, r, pt) if split else [("", [])]
-    for label, conds in cases:
-        nm = clause if not label else f"{clause}[{label}]"
-        emit(nm, list(props), goal, extra=conds, info=label or None)
+    emit("result-mentions-no-new-variable", list(props), sym.subset(spec.vars_of(I, r), spec.vars_of(I, slf)))
+    cases = case_product(I, slf, r, pt) if split else None
+    emit(clause, list(props), goal, cases=cases)
 
 
 def fam_reducer(cls, rule, arity, label, bounded):
@@ -131,7 +132,7 @@ def fam_reducer(cls, rule, arity, label, bounded):
                 return
             refines_obligations(I, res, emit, slf, r, pt)
         return H.run_family(prog, f"{label}.{rule}", setup, post, bounded=bounded)
-    return FamilySpec(f"{label}.{rule}", ["C08", "C05", "C17"], run, functions=[f"{cls.name}.{rule}"])
+    return FamilySpec(f"{label}.{rule}", list(IMPORTERS) + ["C17"], run, functions=[f"{cls.name}.{rule}"])
 
 
 def specs(prog, tier):
@@ -187,7 +188,7 @@ def fam_take_reduction_step(cls, arity, label, bounded):
                          sym.conj([k.ghost["fully_reduced"] if k.cls is None or k.kind == "child" else z3.BoolVal(True) for k in kids]))
         return H.run_family(prog, f"{label}._take_reduction_step", setup, post, bounded=bounded,
                             force_contract=("_reduce_*", "_consolidate_expression_lacking_variables"))
-    return FamilySpec(f"{label}._take_reduction_step", ["C08", "C09", "C17", "C05"], run,
+    return FamilySpec(f"{label}._take_reduction_step", list(IMPORTERS) + ["C17"], run,
                       functions=[f"{cls.name}._take_reduction_step", f"{cls.name}._rebuild", f"{cls.name}._reducers"])
 
 
@@ -224,11 +225,11 @@ def fam_consolidate(cls, arity, label, bounded):
             if not (isinstance(r, Obj) and r.cls is not None and r.cls.name == "Constant"):
                 emit("returns-Constant-or-None", ["C08"], z3.BoolVal(False), info=repr(r))
                 return
-            emit("folded=>variable-free", ["C08"], spec.vars_of(I, slf) == sym.empty_set())
-            emit("folded=>defined-with-that-value", ["C08"], z3.And(d.D, d.V == real_term(r.fields["value"])))
+            emit("folded=>variable-free", list(IMPORTERS), spec.vars_of(I, slf) == sym.empty_set())
+            emit("folded=>defined-with-that-value", list(IMPORTERS), z3.And(d.D, d.V == real_term(r.fields["value"])))
         return H.run_family(prog, f"{label}._consolidate_expression_lacking_variables", setup, post, bounded=bounded,
                             force_contract=("at",))
-    return FamilySpec(f"{label}._consolidate_expression_lacking_variables", ["C08", "C09", "C17", "C14"], run,
+    return FamilySpec(f"{label}._consolidate_expression_lacking_variables", list(IMPORTERS) + ["C17", "C14"], run,
                       functions=["Expression._consolidate_expression_lacking_variables"])
 
 
@@ -250,7 +251,7 @@ def fam_normalize_fully_reduced(cls, arity, label, bounded):
             result_refines(I, res, emit, slf, pt, "normal-form-refines", split=True)
         return H.run_family(prog, f"{label}._normalize_fully_reduced", setup, post, bounded=bounded,
                             force_contract=("_normalize",))
-    return FamilySpec(f"{label}._normalize_fully_reduced", ["C08", "C17", "C05"], run,
+    return FamilySpec(f"{label}._normalize_fully_reduced", list(IMPORTERS) + ["C17"], run,
                       functions=[f"{cls.name}._normalize_fully_reduced"])
 
 
@@ -268,7 +269,7 @@ def fam_normalize():
             result_refines(I, res, emit, I.ghost["e"], I.ghost["pt"], "normalize-refines")
         return H.run_family(prog, "Expression._normalize", setup, post,
                             force_contract=("_fully_reduce", "_normalize_fully_reduced"))
-    return FamilySpec("Expression._normalize", ["C08", "C17", "C05"], run, functions=["Expression._normalize"])
+    return FamilySpec("Expression._normalize", list(IMPORTERS) + ["C17"], run, functions=["Expression._normalize"])
 
 
 def fam_fully_reduce(part):
@@ -329,7 +330,7 @@ def fam_fully_reduce(part):
             clause = "invariant-holds" if kind == "inv" else "returned-expression-refines-self"
             refines_obligations(I, res, emit, e, val, pt, split=False, clause=f"{part}:{clause}")
         return H.run_family(prog, f"Expression._fully_reduce[{part}]", setup, post)
-    return FamilySpec(f"Expression._fully_reduce[{part}]", ["C08", "C17", "C05"], run, functions=["Expression._fully_reduce"])
+    return FamilySpec(f"Expression._fully_reduce[{part}]", list(IMPORTERS) + ["C17"], run, functions=["Expression._fully_reduce"])
 
 
 _base_specs = specs
